@@ -83,3 +83,16 @@ package database
 //@   trusted
 //@   requires q != nil
 //@   event setMultiSynced(arg.BlockNumber)
+//@
+//@ // C15: every insert is recorded with the database handle it went through (the data word of Queries.db), so that
+//@ // "events and position are written through the same transaction" is a statement over the trace
+//@ evdecl insTrigReg(Int)
+//@ evdecl insIdReg(Int)
+//@ func (*Queries).InsertEventTriggerRegisteredEvent
+//@   trusted
+//@   requires q != nil
+//@   event insTrigReg(payload(q.db))
+//@ func (*Queries).InsertIdentityRegisteredEvent
+//@   trusted
+//@   requires q != nil
+//@   event insIdReg(payload(q.db))
